@@ -391,7 +391,7 @@ def tab_eci(ctx):
                 out.append(folder.fold(call["args"][1]))
                 return None
             return NotImplemented
-        fo = T.Folder(f, env={cparam: c}, on_call=on_call, effects=True)
+        fo = T.Folder(f, env={cparam: c}, on_call=on_call, effects=True, local_calls=2)
         fo.run(wb["body"])
         return out
 
@@ -408,7 +408,7 @@ def tab_eci(ctx):
                     return {"__adt__": "core::result::Result", "__variant__": "Ok", "#0": v, "0": v}
                 return {"__adt__": "core::result::Result", "__variant__": "Err", "#0": {"__variant__": "UnexpectedEnd"}}
             return NotImplemented
-        fo = T.Folder(f, env={dparam: "READER"}, on_call=on_call, effects=True)
+        fo = T.Folder(f, env={dparam: "READER"}, on_call=on_call, effects=True, local_calls=2)
         res = fo.run(rb["body"])
         if isinstance(res, dict) and res.get("__variant__") == "Ok":
             tup = res.get("#0")
@@ -445,20 +445,20 @@ def tab_eci(ctx):
     obs.append(Ob(r, "read-inverts-write", bad_rt is None,
                   "read_eci returns the number write_eci was given for the same %d values%s" % (n, "" if not bad_rt else ": " + bad_rt),
                   site=T.span_str(rb["span"])))
-    # writer arm ranges
-    wm = None
-    for x in T.exprs(wb["body"], "Match"):
-        s = T.strip(x["scrut"])
-        if s.get("k") == "Var" and s["name"] == cparam:
-            wm = x
-    need(wm, r, "write_eci", "(match on the designator)")
+    # writer form boundaries: the form length changes exactly at 127 and 16383, and 999999 is the last value accepted
     rngs = []
-    for arm in wm["arms"]:
-        p = arm["pat"]
-        if p["k"] == "Range":
-            rngs.append((p["lo"], p["hi"] if p["incl"] else p["hi"] - 1))
-    obs.append(Ob(r, "write-ranges", rngs == [(0, 126), (127, 16382), (16383, 999999)],
-                  "write_eci arms cover 0..=126 | 127..=16382 | 16383..=999999 contiguously (the only panic arm is outside the documented domain)", detail=rngs))
+    try:
+        for c in (0, 126, 127, 16382, 16383, 999999):
+            rngs.append((c, len(run_write(c)) - 1))
+        try:
+            run_write(1000000)
+            rngs.append((1000000, "accepted"))
+        except T.Trap:
+            rngs.append((1000000, "panic"))
+    except (T.Trap, T.Undecidable) as ex:
+        rngs.append(("?", str(ex)))
+    obs.append(Ob(r, "write-ranges", rngs == [(0, 1), (126, 1), (127, 2), (16382, 2), (16383, 3), (999999, 3), (1000000, "panic")],
+                  "write_eci uses the 1-codeword form for 0..=126, the 2-codeword form for 127..=16382 and the 3-codeword form for 16383..=999999 (the only panic is outside the documented domain)", detail=rngs))
     # reader: exhaustive first byte x second byte; third byte exhaustive for the boundary first bytes
     bad_r = None
     nr = 0
@@ -540,17 +540,17 @@ def str_branch(ctx):
         ok = okc and okt and oke
     obs.append(Ob(r, "encode_str", ok, "encode_str: Some(latin1) -> encode_eci(&latin1, None); None -> encode_eci(text.as_bytes(), Some(ECI_UTF8))",
                   site=T.span_str(b["span"]), detail=det))
-    # encode_data_internal: write_eci iff eci is Some, with that value
-    fn2 = "data::encode_data_internal"
-    sts2, _ = T.fn_stmts(f, fn2)
-    need(sts2 is not None, r, fn2)
-    wc = [(s, x) for s in T.stmt_walk(sts2) for e in T.stmt_exprs(s) for x in T.sx_calls(e, "write_eci")]
-    ok2 = False
-    ifs2 = [s for s in sts2 if s[0] == "if" and s[1][0] == "iflet" and s[1][1][:2] == ("var", "eci") and s[1][3] == "Some"]
-    if len(wc) == 1 and len(ifs2) == 1:
-        inside = [x for s in T.stmt_walk(ifs2[0][2]) for e in T.stmt_exprs(s) for x in T.sx_calls(e, "write_eci")]
-        ok2 = len(inside) == 1 and inside[0][2][1][:2] == ("var", ifs2[0][1][2][0].split("#")[0]) and not ifs2[0][3]
-    obs.append(Ob(r, "write_eci-iff-some", ok2, "the ECI header is written iff an ECI was requested, with the requested number", detail=[T.sx_show(x) for _s, x in wc]))
+    # encode_data_internal: write_eci iff eci is Some, with that value (folded for the four flag / option combinations)
+    from . import p_macro
+    tr = p_macro.dispatch_traces(f, r)
+    ok2 = all(isinstance(v, list) for v in tr.values())
+    wc = []
+    if ok2:
+        for (um, eci), v in tr.items():
+            w = [a for n, a in v if n == "write_eci"]
+            wc.append(("%s/%s" % (um, eci), [x[1] if len(x) > 1 else None for x in w]))
+            ok2 = ok2 and ((eci is None and not w) or (eci is not None and len(w) == 1 and len(w[0]) == 2 and w[0][1] == eci))
+    obs.append(Ob(r, "write_eci-iff-some", ok2, "the ECI header is written iff an ECI was requested, with the requested number", detail=wc))
     # encode(): no ECI
     e, bb = None, f.thir.get("DataMatrixBuilder::encode")
     need(bb, r, "DataMatrixBuilder::encode")
